@@ -112,6 +112,9 @@ AsCoded(e, i) ==
            IF st.k = "float" THEN
                IF e.l.c # "fin" THEN FALSE
                ELSE IF dt.k = "int" THEN MatchesRConv(FloatToInt(i.tag, FVal(e.l), st.p, 64, AsIntT(dt)), e.out, J(e.res))
+               \* an elastic destination takes the same float -> integer code, the cast going to its representation
+               ELSE IF dt.k = "elastic" /\ dt.rep.k = "int"
+                    THEN MatchesRConv(FloatToInt(i.tag, FVal(e.l), st.p, 64, AsIntT(dt.rep)), e.out, J(e.res))
                ELSE IF dt.k = "scaled" /\ dt.r = 2 /\ dt.rep.k = "int"
                     THEN MatchesRConv(FloatToScaled(i.tag, FVal(e.l), st.p, AsIntT(dt.rep), dt.e), e.out, J(e.res))
                ELSE FALSE
